@@ -473,7 +473,16 @@ impl Printable for Member {
 				p!(out, {n.field_name()} if(n.plus_token().is_some())({n.plus_token()}) {n.visibility()} str(" ") {n.expr()});
 			}
 			Self::MemberFieldMethod(m) => {
-				p!(out, {m.field_name()} {m.params_desc()} {m.visibility()} str(" ") {m.expr()});
+				let plus = m
+					.syntax()
+					.children_with_tokens()
+					.any(|c| c.kind() == jrsonnet_rowan_parser::SyntaxKind::PLUS);
+				if plus {
+					// `f+: function(..) e` has no method spelling: `f(..): e` would drop the `+`
+					p!(out, {m.field_name()} str("+") {m.visibility()} str(" function") {m.params_desc()} str(" ") {m.expr()});
+				} else {
+					p!(out, {m.field_name()} {m.params_desc()} {m.visibility()} str(" ") {m.expr()});
+				}
 			}
 		}
 	}
